@@ -14,7 +14,7 @@
    written to a RIB before the whole file is known to be valid; `fix_chain` = the withdraws owed to a
    session that has not come up since an earlier reload survive the next reload. *)
 From Coq Require Import ZArith Bool List.
-From ExaV Require Import lib.Amap model.Model_Rib.
+From ExaV Require Import lib.Amap model.Model_Rib gen.Gen_MainShape.
 Import ListNotations.
 Open Scope Z_scope.
 
@@ -35,15 +35,19 @@ Record st := {
   ribs : amap Z nb           (* RIB._cache *)
 }.
 
-Record fixes := { fix_rollback : bool; fix_defer : bool; fix_chain : bool }.
-Definition pinned : fixes := {| fix_rollback := false; fix_defer := false; fix_chain := false |}.
-Definition rollback_only : fixes := {| fix_rollback := true; fix_defer := false; fix_chain := false |}.
+Record fixes := { fix_rollback : bool; fix_defer : bool; fix_chain : bool; fix_eager : bool }.
+Definition pinned : fixes := {| fix_rollback := false; fix_defer := false; fix_chain := false; fix_eager := false |}.
+Definition rollback_only : fixes := {| fix_rollback := true; fix_defer := false; fix_chain := false; fix_eager := false |}.
 (* roll-back and deferred RIB insertion repaired (/repo f8577ca, 9c55346, af12ba1) *)
-Definition repaired_failure : fixes := {| fix_rollback := true; fix_defer := true; fix_chain := false |}.
-Definition repaired : fixes := {| fix_rollback := true; fix_defer := true; fix_chain := true |}.
+Definition repaired_failure : fixes := {| fix_rollback := true; fix_defer := true; fix_chain := false; fix_eager := false |}.
+(* ... and the withdraws owed by an earlier reload survive the next one (/repo f9b5d54) *)
+Definition repaired_chain : fixes := {| fix_rollback := true; fix_defer := true; fix_chain := true; fix_eager := false |}.
+(* ... and a reload that re-establishes a session takes the routes that are gone out of the
+   Adj-RIB-Out at once (fix_eager) instead of owing their withdraws to the next establishment *)
+Definition repaired : fixes := {| fix_rollback := true; fix_defer := true; fix_chain := true; fix_eager := true |}.
 
 (* the tree the correspondence check is run against (one line to change when /repo is repaired) *)
-Definition tree : fixes := repaired.
+Definition tree : fixes := repaired_chain.
 
 Inductive outcome :=
 | Parsed (cfg : cfgmap)                       (* parse_section('root') is True *)
@@ -111,7 +115,11 @@ Definition commit_nb (fx : fixes) (s : st) (n : Z) (c : ncfg) (parsed_now : bool
   | None => {| nsys := nsys b1; npw := [] |}
   | Some p =>
     if p =? nparams c
-    then {| nsys := run (rr_ops owed (nroutes c)) (nsys b1); npw := [] |}
+    then {| nsys := run (rr_ops owed (nroutes c)) (nsys b1);
+            (* the loop of Peer._main forgets Neighbor.previous once it has applied it: reload_clears (gen) *)
+            npw := if up (nsys b1) && negb reload_clears then leftover owed (nroutes c) else [] |}
+    else if fix_eager fx
+    then {| nsys := step (run (rr_ops owed (nroutes c)) (nsys b1)) Drop; npw := [] |}
     else {| nsys := step (nsys b1) Drop; npw := leftover owed (nroutes c) |}
   end.
 
@@ -155,7 +163,9 @@ Definition reload (fx : fixes) (s : st) (o : outcome) : st * bool :=
 Definition nb_step (b : nb) (o : op) : nb :=
   match o with
   | Establish => if up (nsys b) then b
-                 else {| nsys := run (map Wd (npw b)) (step (nsys b) Establish); npw := [] |}
+                 else {| nsys := run (map Wd (npw b)) (step (nsys b) Establish);
+                         (* Peer._main forgets Neighbor.previous after replace_restart: restart_clears (gen) *)
+                         npw := if restart_clears then [] else npw b |}
   | _ => {| nsys := step (nsys b) o; npw := npw b |}
   end.
 
